@@ -50,6 +50,56 @@ def curve_appenders(db):
     return direct
 
 
+def init_obligations(db, f):
+    """FlexPath::init, executed once on a generic element (sa/genelem.py): the spine receives exactly the initial position, and
+    the loop over the elements (affine summary: every element once) appends one pair whose first component is HALF the width
+    parameter (scalar or per-element array). Returns (one point and one entry per element, entry holds half the width)."""
+    from .. import genelem as G, symdiff as S, loops as LP
+    seen = {'spine': [], 'wo': []}
+    g = G.Gen(db, f)
+
+    def hook(c, env):
+        if c.k != 'CXXMemberCallExpr' or (c.callee or '').split('::')[-1] not in ('append', 'append_unsafe'):
+            return
+        o = _strip_casts(c.child('obj'))
+        t = norm(o.text())
+        try:
+            v = g.value(c.args[0], env)
+        except S.Unsupported:
+            v = None
+        if t == 'this->spine':
+            seen['spine'].append((c, v))
+        elif t.endswith('half_width_and_offset'):
+            seen['wo'].append((c, v))
+    g.on_call = hook
+    env = {}
+    for p_ in f.params:
+        if '*' in (p_.get('t') or ''):
+            env[p_['n']] = ('ptr', p_['n'] + '[]')
+    try:
+        g.run([s_ for s_ in f.body.c if s_ is not None], env)
+    except S.Unsupported as e:
+        raise AnalysisBroken('%s is outside the generic-element algebra: %s' % (f.qn, e))
+    if len(seen['spine']) != 1 or len(seen['wo']) != 1:
+        return False, False
+    ip = f.params[0]['n']
+    sv = seen['spine'][0][1]
+    ok = sv is not None and g.isvec(sv) and g.equal(sv, g.vec(S.atom(ip + '.x'), S.atom(ip + '.y')))
+    c, wv = seen['wo'][0]
+    L = LP.enclosing_loop(c)
+    if L is None:
+        return False, False
+    lp = LP.Loop(f, L)
+    ep = lp.element_ptr(c.child('obj'), c)
+    ok = ok and lp.visits(ep, 'this->elements', {'this->num_elements': 1}) is not None and LP.unconditional_in(c, L)
+    wp = next((p_ for p_ in f.params if p_['n'] == 'width'), None)
+    half = False
+    if wv is not None and g.isvec(wv) and wp is not None:
+        watom = S.atom('width[]') if '*' in (wp.get('t') or '') else S.atom('width')
+        half = g.equal(wv[1], S.mul(S.P(S.Fraction(1, 2)), watom))
+    return ok, half
+
+
 def check_bookkeeping(ctx, db):
     app = curve_appenders(db)
     need = {'horizontal', 'vertical', 'segment', 'cubic', 'cubic_smooth', 'quadratic', 'quadratic_smooth', 'bezier', 'interpolation', 'arc', 'turn', 'parametric', 'commands', 'append'}
@@ -60,6 +110,16 @@ def check_bookkeeping(ctx, db):
         if f.recqn != 'gdstk::FlexPath':
             continue
         sp = [c for c in f.walk() if c.k == 'CXXMemberCallExpr' and c.callee and c.callee.startswith('gdstk::Curve::') and c.callee.split('::')[-1] in app and norm(c.child('obj').text()) == 'this->spine']
+        if not sp and f.name == 'init' and f.body is not None:
+            # an overload that only forwards to a sibling overload is held to that sibling's obligations
+            dl = [c for c in f.walk() if c.k == 'CXXMemberCallExpr' and (c.callee or '') == 'gdstk::FlexPath::init' and _strip_casts(c.child('obj')).k == 'CXXThisExpr']
+            if len(dl) == 1:
+                ctx.touch(f)
+                n += 1
+                pn = {p_['n'] for p_ in f.params}
+                okd = all(_strip_casts(a).k == 'DeclRefExpr' and _strip_casts(a).dk == 'param' for a in dl[0].args) and {'initial_position', 'width'} <= {_strip_casts(a).n for a in dl[0].args}
+                ctx.check(okd, 'R-PAIRCALL', 'FlexPath::init#%d/one-point-one-entry' % len(f.params), f.loc(), 'forwards its own parameters to the sibling init overload, which appends one spine point and one entry per element')
+            continue
         if not sp:
             continue
         ctx.touch(f)
@@ -67,23 +127,7 @@ def check_bookkeeping(ctx, db):
         label = 'FlexPath::%s#%d' % (f.name, len(f.params))
         if f.name == 'init':
             n += 1
-            ok = len(sp) == 1 and sp[0].callee.endswith('::append') and re.sub(r'^Vec2\{(.*)\}$', r'\1', norm(sp[0].args[0].text())) == 'initial_position'
-            loop = next((l for l in f.walk() if l.k == 'ForStmt'), None)
-            ok = ok and loop is not None and norm(loop.child('cond').text()).endswith('< this->num_elements)')
-            aps = [c for c in (loop.walk() if loop is not None else []) if c.k == 'CXXMemberCallExpr' and (c.callee or '').endswith('::append') and norm(c.child('obj').text()).endswith('.half_width_and_offset')]
-            ok = ok and len(aps) == 1
-            half = False
-            if aps:
-                a0 = aps[0].args[0]
-                kids = a0
-                while len([c for c in kids.c if c is not None]) == 1:
-                    kids = [c for c in kids.c if c is not None][0]
-                first = _strip_casts([c for c in kids.c if c is not None][0])
-                ft = norm(first.text())
-                if re.match(r'^\(0\.5 \* width\[', ft):
-                    half = True
-                elif ft == 'width':
-                    half = any(x.k == 'CompoundAssignOperator' and x.op == '/=' and norm(x.child('lhs').text()) == 'width' and (x.child('rhs').cv == 2 or x.child('rhs').fv == 2) and x.id < loop.id for x in f.walk())
+            ok, half = init_obligations(db, f)
             ctx.check(ok and half, 'R-PAIRCALL', label + '/one-point-one-entry', f.loc(), 'init appends exactly one spine point and one (half width, offset) entry per element',
                       'init does not append one spine point and one half-width entry per element (half=%s)' % half)
             continue
